@@ -13,6 +13,7 @@ import TwSpec
 import TwProofs.Lemmas.Loops
 import TwProofs.Lemmas.EachSimple
 import TwProofs.Lemmas.TextEach
+import TwProofs.Lemmas.EachElse
 
 namespace Tw.C03
 open Tw
@@ -280,6 +281,90 @@ example : evaluateStringPure [] (b "n: @each(v in  xs ){{v }},@end by {{who}}") 
   rw [h1, h2] at h
   exact h
 end example_each
+
+/-- **`@each … @else … @end` from the source bytes**: for the template
+    `@each(x in xs) body @else other @end` (any white space inside the parentheses; `body` of text
+    and `{{ name }}` blocks, `other` also with assignments; the text right after `@else` not
+    beginning with "if") and every data map that binds `xs` to an array of elements of one type,
+    the render is the body once per element, in order (`passTexts`), when the array has elements —
+    the `@else` block is not evaluated then — and the `@else` block, evaluated in a scope of its
+    own, when the array is empty.  Lexer (`eachElseCode_ok`), parser (`parse_each_else_stmt`,
+    `parseBody_aitems` with `@else` as the end of the first block) and evaluator composed. -/
+theorem each_else_renders_from_source (custom : List ((VType × Bytes) × Nat)) (g1 x g2 g3 xs g4 : Bytes) (body ebody : List AItem)
+    (hok : EachElseOK g1 x g2 g3 xs g4 body ebody) (hna : noAssign body = true)
+    (data : List (Bytes × GoVal)) (env : Env) (henv : envFromMap data = .ok env)
+    (vs : List Val) (ty : VType) (harr : env.get xs = some (.arr vs)) (hty : ∀ v ∈ vs, v.type = ty)
+    (hxl : (x == b "loop") = false) (hfresh : ∀ old, env.get x = some old → old.type = ty)
+    (hvis : holesVisible env x (apieces body)) (hel : vs = [] → abound env.push ebody)
+    (hsize : body.length + ebody.length + vs.length + 10 ≤ evalFuel) :
+    evaluateStringPure custom (eachElseSrc g1 x g2 g3 xs g4 body ebody) data =
+      .ok (if vs = [] then (aeval env.push ebody).1 else passTexts env x (apieces body) vs.length vs 0) := by
+  obtain ⟨prog, t1, t5, stmts, estmts, hp, hs, hm1, hm2⟩ := parse_each_else_source g1 x g2 g3 xs g4 body ebody hok
+  obtain ⟨hsb, hpc⟩ := amatch_simple stmts body hm1 hna
+  have hlen : stmts.length = body.length := by rw [simple_length _ hsb, hpc, apieces_length body hna]
+  unfold evaluateStringPure envOrFail
+  rw [hp]
+  simp only [henv, hs]
+  have hex : ∀ f, evalExpr (f + 1) { custom := custom } env.push (.ident t5 xs) = .ok (.arr vs) := by
+    intro f; simp [evalExpr, env_push_get, harr]
+  obtain ⟨F, hF⟩ : ∃ F, evalFuel = F + 1 + 1 := ⟨evalFuel - 2, by omega⟩
+  rw [hF, evalProg_cons]
+  by_cases hne : vs = []
+  · subst hne
+    rw [each_empty_else F _ env t1 x (.ident t5 xs) stmts estmts (by
+      obtain ⟨k, rfl⟩ : ∃ k, F = k + 1 := ⟨F - 1, by omega⟩
+      exact hex k)]
+    rw [evalBlock_abody _ estmts ebody hm2 env.push F (hel rfl) (by simp at hsize; omega)]
+    simp only [Res.bind_ok]
+    rw [evalProg_nil]
+    simp [resToOut]
+  · have h0 := each_of_text_and_variables' 1 { custom := custom } env t1 x (.ident t5 xs) stmts (some estmts) vs ty (hex 0) hne hxl hfresh hty hsb
+      (by rw [hpc]; exact hvis)
+    have hm : max 1 (stmts.length + 3) = stmts.length + 3 := by omega
+    rw [hm] at h0
+    obtain ⟨k, hk⟩ : ∃ k, F + 1 = (stmts.length + 3 + vs.length + 1 + 1) + k := ⟨F + 1 - (stmts.length + 3 + vs.length + 1 + 1), by omega⟩
+    rw [hk, evalStmt_lift h0 k]
+    simp only [Res.bind_ok]
+    rw [← hk, evalProg_nil]
+    simp [resToOut, hne, hpc]
+
+section example_each_else
+private def exBody : List AItem := [.print [] (b "v") [], .text (b ",")]
+private def exElse : List AItem := [.text (b "none for "), .print [32] (b "who") [32]]
+
+example : eachElseSrc [] (b "v") [32] [32] (b "xs") [] exBody exElse = b "@each(v in xs){{v}},@elsenone for {{ who }}@end" := by decide
+
+/-- the array has elements: the passes; it is empty: the `@else` block -/
+example : evaluateStringPure [] (b "@each(v in xs){{v}},@elsenone for {{ who }}@end") [(b "who", .str (b "me")), (b "xs", .slice [.int 1, .int 2])] = .ok (b "1,2,") := by
+  have h := each_else_renders_from_source [] [] (b "v") [32] [32] (b "xs") [] exBody exElse
+    ⟨by decide, by decide, by decide, by decide, by decide, by decide, by decide, by decide, by decide, by decide, by decide⟩ (by decide)
+    [(b "who", .str (b "me")), (b "xs", .slice [.int 1, .int 2])] [[(b "who", .str (b "me")), (b "xs", .arr [.int 1, .int 2])]] (by rfl)
+    [.int 1, .int 2] .INTEGER (by rfl) (by decide) (by decide)
+    (fun old ho => by have : Env.get [[(b "who", Val.str (b "me")), (b "xs", Val.arr [.int 1, .int 2])]] (b "v") = none := by decide
+                      rw [this] at ho; cases ho)
+    ⟨Or.inl rfl, trivial⟩ (fun e => by cases e) (by decide)
+  have hs : eachElseSrc [] (b "v") [32] [32] (b "xs") [] exBody exElse = b "@each(v in xs){{v}},@elsenone for {{ who }}@end" := by decide
+  have ho : passTexts [[(b "who", Val.str (b "me")), (b "xs", Val.arr [.int 1, .int 2])]] (b "v") (apieces exBody) 2 [.int 1, .int 2] 0 = b "1,2," := by decide
+  rw [hs] at h
+  simp only [List.cons_ne_self, reduceCtorEq, if_false, List.length_cons, List.length_nil] at h
+  rw [show (0 + 1 + 1 : Nat) = 2 from rfl, ho] at h
+  exact h
+
+example : evaluateStringPure [] (b "@each(v in xs){{v}},@elsenone for {{ who }}@end") [(b "who", .str (b "me")), (b "xs", .slice [])] = .ok (b "none for me") := by
+  have h := each_else_renders_from_source [] [] (b "v") [32] [32] (b "xs") [] exBody exElse
+    ⟨by decide, by decide, by decide, by decide, by decide, by decide, by decide, by decide, by decide, by decide, by decide⟩ (by decide)
+    [(b "who", .str (b "me")), (b "xs", .slice [])] [[(b "who", .str (b "me")), (b "xs", .arr [])]] (by rfl)
+    [] .INTEGER (by rfl) (fun v hv => by cases hv) (by decide)
+    (fun old ho => by have : Env.get [[(b "who", Val.str (b "me")), (b "xs", Val.arr [])]] (b "v") = none := by decide
+                      rw [this] at ho; cases ho)
+    ⟨Or.inl rfl, trivial⟩ (fun _ => ⟨by rfl, trivial⟩) (by decide)
+  have hs : eachElseSrc [] (b "v") [32] [32] (b "xs") [] exBody exElse = b "@each(v in xs){{v}},@elsenone for {{ who }}@end" := by decide
+  have ho : (aeval (Env.push [[(b "who", Val.str (b "me")), (b "xs", Val.arr [])]]) exElse).1 = b "none for me" := by decide
+  rw [hs] at h
+  simp only [if_true] at h
+  rw [ho] at h
+  exact h
+end example_each_else
 
 /-! ### end-to-end instances (kernel evaluation of the whole pipeline) -/
 
